@@ -1,6 +1,7 @@
 ---------------------------- MODULE MultiTransport ----------------------------
 (* L1 wrapper of MultiTransportCore: exhaustive exploration of all member sets, initial ids,
-   scheduler selections (members, non-members, the empty id), writes, member reads, probes and
+   scheduler selections (members, non-members, the empty id), writes (returning at once or staying in flight inside the
+   member while selections queue up), member reads, probes and
    Close, with the goroutine steps applySel / pump interleaved freely (write-vs-selection and
    read-merge races).  The same module generates the environment scripts (cfgs with GenCanon). *)
 EXTENDS MultiTransportCore
@@ -39,10 +40,11 @@ AllProbes == {"counters", "asUnreliable", "negotiationParams"}
 MemberSets == { {"m1"}, {"m1", "m2"}, All3 }
 Fam(name, M, init, selIds, ms, mw, mr, mp, probes, rac) ==
     [name |-> name, M |-> M, init |-> init, selIds |-> selIds, maxSel |-> ms, maxW |-> mw, maxR |-> mr,
-     maxP |-> mp, probes |-> probes, maxRac |-> rac]
+     maxP |-> mp, probes |-> probes, maxRac |-> rac, hold |-> FALSE]
+FamH(name, M, init, selIds, ms, mw, mr) == [Fam(name, M, init, selIds, ms, mw, mr, 0, {}, 0) EXCEPT !.hold = TRUE]
 
 \* exhaustive: all member sets x all initial ids, bounds from the cfg
-ExhFams == { Fam("exh", M, i, Ids, MaxSel, MaxWrites, MaxReads, MaxProbe, AllProbes, MaxRac) : M \in MemberSets, i \in Ids }
+ExhFams == { [Fam("exh", M, i, Ids, MaxSel, MaxWrites, MaxReads, MaxProbe, AllProbes, MaxRac) EXCEPT !.hold = TRUE] : M \in MemberSets, i \in Ids }
 \* the defect demonstration (AsCoded = TRUE): small
 CodedFams == { Fam("coded", {"m1", "m2"}, "m1", Ids, 1, 1, 0, 1, {"negotiationParams"}, 0) }
 
@@ -57,7 +59,9 @@ GenQ ==
       Fam("mix", {"m1", "m2"}, "m1", {"m2", "zz"}, 1, 1, 1, 1, {"counters"}, 0),
       Fam("rac", {"m1", "m2"}, "m2", {}, 0, 0, 2, 0, {}, 1),
       Fam("lu", {"m1", "m2"}, "m1", {"m2"}, 2, 1, 1, 0, {}, 0),
-      Fam("w3q", All3, "m3", {"m2"}, 1, 3, 0, 0, {}, 0) }
+      Fam("w3q", All3, "m3", {"m2"}, 1, 3, 0, 0, {}, 0),
+      FamH("hold", {"m1", "m2"}, "m1", {"m1", "m2", "zz", ""}, 2, 1, 0),
+      FamH("holdr", {"m1", "m2"}, "m2", {"m1", "zz"}, 1, 1, 1) }
     \cup { Fam("init", All3, i, {"m1"}, 1, 1, 0, 1, AllProbes, 0) : i \in {"zz", ""} }
     \cup { Fam("init", {"m1", "m2"}, "m3", {"m1"}, 1, 1, 0, 1, AllProbes, 0) }
 \* additional families of the thorough tier
@@ -66,5 +70,6 @@ GenT ==
       Fam("sel4", All3, "m3", {"m1", "m2", "zz"}, 4, 1, 0, 0, {}, 0),
       Fam("w3", All3, "m1", {"m2", "m3", "zz", ""}, 2, 3, 0, 0, {}, 0),
       Fam("reads3all", All3, "m1", {}, 0, 0, 3, 0, {}, 0),
-      Fam("mix2", All3, "m1", {"m3", ""}, 1, 2, 1, 1, {"counters"}, 0) }
+      Fam("mix2", All3, "m1", {"m3", ""}, 1, 2, 1, 1, {"counters"}, 0),
+      FamH("hold3", All3, "m3", {"m1", "zz", ""}, 3, 1, 0) }
 =============================================================================
